@@ -3,6 +3,7 @@
    `verify_recipient_metadata`, `verify_payer_metadata_inner`, `verify_metadata`) over an abstract
    `mac : key → msg → bytes` (HMAC-SHA256 keyed with `ExpandedKey.offers_base_key` in the driver) and
    an abstract `pubOf : secret → public key`.  No Mathlib. -/
+import LdkModel.Model.Merkle
 namespace Ldk.OfferMeta
 
 abbrev Bytes := List UInt8
@@ -69,5 +70,92 @@ def verifyPayer (pubOf : Bytes → Bytes) (key iv signingPubkey tlvs md : Bytes)
   match verifyHmac mac key iv rest (some encPid) tlvs with
   | none => .err
   | some h => verifyTail pubOf rest h signingPubkey
+
+/-! ### which records of an offer the stateless check covers (offers/offer.rs::OfferContents::verify) -/
+open Ldk.Merkle (Rec readBigSize)
+
+/-- value bytes of a TLV record (after type and length) -/
+def recValue (r : Rec) : Bytes :=
+  let rest := r.recordBytes.drop r.typeBytes.length
+  match readBigSize rest with
+  | some (_, k) => rest.drop k
+  | none => []
+
+def OFFER_TYPES_LO : Nat := 1                      -- offer.rs::OFFER_TYPES = 1..80
+def OFFER_TYPES_HI : Nat := 80
+def EXPERIMENTAL_OFFER_TYPES_LO : Nat := 1000000000 -- offer.rs::EXPERIMENTAL_OFFER_TYPES
+def EXPERIMENTAL_OFFER_TYPES_HI : Nat := 2000000000
+def OFFER_METADATA_TYPE : Nat := 4
+def OFFER_ISSUER_ID_TYPE : Nat := 22
+def IV_BYTES_WITH_METADATA : Bytes := "LDK Offer ~~~~~~".toUTF8.toList
+def IV_BYTES_WITHOUT_METADATA : Bytes := "LDK Offer v2~~~~".toUTF8.toList
+
+/-- mirrors merkle.rs::TlvStream::range (`skip_while` not in range, then `take_while` in range) -/
+def rangeRecs (lo hi : Nat) (rs : List Rec) : List Rec :=
+  (rs.dropWhile (fun r => !(lo ≤ r.ty && r.ty < hi))).takeWhile (fun r => lo ≤ r.ty && r.ty < hi)
+
+/-- the records fed to the HMAC: the offer range without the metadata record itself and, when the
+    signing key is derived, without the issuer id; then the experimental offer range
+    -- mirrors the iterator built in offer.rs::OfferContents::verify -/
+def offerCovered (derivesKeys : Bool) (rs : List Rec) : List Rec :=
+  (rangeRecs OFFER_TYPES_LO OFFER_TYPES_HI rs).filter
+      (fun r => r.ty != OFFER_METADATA_TYPE && (r.ty != OFFER_ISSUER_ID_TYPE || !derivesKeys)) ++
+    rangeRecs EXPERIMENTAL_OFFER_TYPES_LO EXPERIMENTAL_OFFER_TYPES_HI rs
+
+/-- mirrors offer.rs::OfferContents::verify_using_metadata (`nonce = none`: the metadata is the
+    value of record 4) and verify_using_recipient_data (`nonce = some n`: `Metadata::RecipientData`,
+    the nonce came back through the blinded path context; record 4 is not read at all) -/
+def offerVerify (pubOf : Bytes → Bytes) (key : Bytes) (nonce : Option Bytes) (rs : List Rec) : Verdict :=
+  let metadata : Option Bytes :=
+    match nonce with
+    | some n => some n
+    | none => (rs.find? (fun r => r.ty == OFFER_METADATA_TYPE)).map recValue
+  match metadata with
+  | none => .err
+  | some md =>
+    let derivesKeys := match nonce with | some _ => true | none => md.length == NONCE_LEN
+    match rs.find? (fun r => r.ty == OFFER_ISSUER_ID_TYPE) with
+    | none => .err
+    | some pkRec =>
+      let iv := match nonce with | some _ => IV_BYTES_WITHOUT_METADATA | none => IV_BYTES_WITH_METADATA
+      verifyRecipient mac pubOf key iv (recValue pkRec)
+        ((offerCovered derivesKeys rs).flatMap (fun r => r.recordBytes)) md
+
+/-! ### which records of an invoice the payer's stateless check covers (offers/invoice.rs) -/
+
+def PAYER_METADATA_TYPE : Nat := 0               -- payer.rs
+def OFFER_PATHS_TYPE : Nat := 16                 -- offer.rs tlv_stream (16, paths)
+def INVOICE_REQUEST_TYPES_LO : Nat := 80         -- invoice_request.rs::INVOICE_REQUEST_TYPES = 80..160
+def INVOICE_REQUEST_TYPES_HI : Nat := 160
+def INVOICE_REQUEST_PAYER_ID_TYPE : Nat := 88
+def INVOICE_REQUEST_PATHS_TYPE : Nat := 90       -- invoice_request.rs tlv_stream (90, paths): a refund's paths
+def EXPERIMENTAL_INVOICE_REQUEST_TYPES_HI : Nat := 3000000000
+def INVOICE_REQUEST_IV_BYTES : Bytes := "LDK Invreq ~~~~~".toUTF8.toList
+def REFUND_IV_BYTES_WITH_METADATA : Bytes := "LDK Refund ~~~~~".toUTF8.toList
+def REFUND_IV_BYTES_WITHOUT_METADATA : Bytes := "LDK Refund v2~~~".toUTF8.toList
+
+/-- mirrors invoice.rs::InvoiceContents::payer_tlv_stream: the offer range, the invoice-request range
+    without the payer id when the payer key is derived, the experimental offer + invoice-request
+    ranges (the payer metadata, type 0, lies outside every range) -/
+def invoiceCovered (excludePayerId : Bool) (rs : List Rec) : List Rec :=
+  rangeRecs OFFER_TYPES_LO OFFER_TYPES_HI rs ++
+  (rangeRecs INVOICE_REQUEST_TYPES_LO INVOICE_REQUEST_TYPES_HI rs).filter
+      (fun r => r.ty != PAYER_METADATA_TYPE && (r.ty != INVOICE_REQUEST_PAYER_ID_TYPE || !excludePayerId)) ++
+  rangeRecs EXPERIMENTAL_OFFER_TYPES_LO EXPERIMENTAL_INVOICE_REQUEST_TYPES_HI rs
+
+/-- mirrors invoice.rs::Bolt12Invoice::verify_using_metadata (the `Ok(PaymentId)` payload is the
+    ChaCha20-decrypted first 32 metadata bytes and is not modelled).  An invoice answers an invoice
+    request when the stream has an issuer id or offer paths (invoice.rs TryFrom), else a refund. -/
+def invoiceVerify (pubOf : Bytes → Bytes) (key : Bytes) (rs : List Rec) : Verdict :=
+  match rs.find? (fun r => r.ty == PAYER_METADATA_TYPE), rs.find? (fun r => r.ty == INVOICE_REQUEST_PAYER_ID_TYPE) with
+  | some mdRec, some pkRec =>
+    let md := recValue mdRec
+    let forOffer := rs.any (fun r => r.ty == OFFER_ISSUER_ID_TYPE || r.ty == OFFER_PATHS_TYPE)
+    let iv := if forOffer then INVOICE_REQUEST_IV_BYTES
+              else if rs.any (fun r => r.ty == INVOICE_REQUEST_PATHS_TYPE) then REFUND_IV_BYTES_WITHOUT_METADATA
+              else REFUND_IV_BYTES_WITH_METADATA
+    let derives := md.length == PAYMENT_ID_LEN + NONCE_LEN
+    verifyPayer mac pubOf key iv (recValue pkRec) ((invoiceCovered derives rs).flatMap (fun r => r.recordBytes)) md
+  | _, _ => .err
 
 end Ldk.OfferMeta
